@@ -775,9 +775,16 @@ def finish_check(prop, tier, base_seed, recs, harness_errors, wall, mod, extra):
         print(f"  seed={v.get('seed')} index={v.get('index')} ops {v.get('orig_len')} -> {v.get('min_len')} (fresh-interpreter replay reproduced: {confirmed})")
         lines.append(f"VIOLATION property={prop} replay={path}")
         exit_code = 1
+    per_finding = {}
     for sig, n in sorted(known_hit.items()):
         f = match_finding(findings, sig)
-        print(f"KNOWN-FINDING: property={prop} {f.get('what', sig) if f else sig} [signature {sig}; met in {n} runs]")
+        key = (f.get("id") or f.get("signature") or f.get("signature_re")) if f else sig
+        ent = per_finding.setdefault(key, {"f": f, "n": 0, "sigs": []})
+        ent["n"] += n
+        ent["sigs"].append(sig)
+    for key, ent in sorted(per_finding.items()):
+        f = ent["f"]
+        print(f"KNOWN-FINDING: property={prop} {f.get('what', key) if f else key} [finding {key}; met in {ent['n']} runs; {len(ent['sigs'])} concrete signatures, e.g. {ent['sigs'][0]}]")
     for f in findings:
         if f.get("status") == "known" and not any(match_finding([f], s) for s in known_hit):
             print(f"KNOWN-FINDING-NOT-REPRODUCED: property={prop} signature={f.get('signature') or f.get('signature_re')} (informational)")
